@@ -144,24 +144,29 @@ PROPS["C15"] = {
     "kani": [{"package": "boa_engine", "flags": ENGINE_FLAGS, "tags": ["model", "c15a", "c01d", "c15d", "c15c"]}],
     "assumptions": COMMON_ASSUME + [
         "JsValue::to_number is stubbed to the identity on Numbers (the real one returns exactly that for a Number without touching Context); a &mut Context placeholder is passed that must never be dereferenced",
+        "TypedArray is partially initialised (kind, byte_offset, byte_length, array_length); viewed_array_buffer is never read by the kernels under test",
+        "byte offsets, lengths and buffer sizes are at most 2^53 (the allocation-time cap); copy buffers are 24 bytes with the stated offsets, counts symbolic",
     ],
     "outside_claim": [
-        "sequences of buffer creation/resize/transfer/detach, %TypedArray% methods, Atomics: need Context and the GC heap",
-        "BigInt64/BigUint64 conversions (num-bigint arithmetic)",
-        "non-Number operands (coercion needs Context)",
+        "sequences of buffer creation/resize/transfer/detach, %TypedArray% methods, Atomics: need Context and the GC heap (the bounds kernels ARE checked against an arbitrary current buffer length, which is what a resize changes)",
+        "BigInt64/BigUint64 conversions (num-bigint arithmetic), Float16/Float32 conversions, DataView index checks",
+        "non-Number operands (coercion needs Context); copy lengths above 24 bytes",
     ],
-    "trusted_base": ["integer-arithmetic reference model harness/core/engine/src/lib.rs.model.kani.rs", "the to_number stub"],
+    "trusted_base": ["integer-arithmetic reference model harness/core/engine/src/lib.rs.model.kani.rs", "the to_number stub", "CBMC's memory model for pointer/alignment checks"],
     "manifest": {
-        "text": "Kernel-level claim. Bounded model checking of the element conversion kernels every integer typed array and DataView "
-                "setter goes through (to_int8/uint8/int16/uint16/i32/u32/uint8_clamp): for ALL Numbers (every int32 and every one of "
-                "the 2^64 double bit patterns) the stored element equals trunc(x) modulo 2^k computed by an integer-arithmetic model "
-                "of the IEEE encoding (round-half-even clamp for Uint8Clamped). This is where the saturating-cast defect "
-                "(setUint8(0, 3.5e38) storing 255) lives. View bounds arithmetic and raw byte movers are added by further harnesses "
-                "listed in evidence. Buffer/view histories are NOT decided.",
-        "note": "Trusted: Kani/CBMC, the integer reference model, the to_number stub. Outside: resize/detach/transfer histories, "
-                "TypedArray builtins, Atomics, BigInt element types.",
-        "technique": "bounded model checking of the compiled Rust (Kani/CBMC, SAT) over all 2^64 double bit patterns vs integer-domain spec model",
-        "design_ref": "DESIGN.md §4 C15",
+        "text": "Kernel-level claim over the three mechanisms the property rests on. (1) Element conversions "
+                "(to_int8/uint8/int16/uint16/i32/u32/uint8_clamp): for ALL Numbers (every int32, every one of the 2^64 double bit patterns) the "
+                "stored element equals trunc(x) mod 2^k from an integer model of the IEEE encoding (round-half-even clamp for Uint8Clamped) - "
+                "where the saturating-cast defect lived. (2) Bounds arithmetic (is_out_of_bounds, array_length, byte_length, "
+                "validate_index, validate_index_u64): for ALL cached (offset, length|auto, element kind) and ALL current buffer lengths "
+                "<= 2^53 and ALL u64 / double indices, an accepted index addresses bytes inside the buffer, -0/NaN/fractions/negatives are rejected, no "
+                "overflow. (3) Raw byte movers (memcpy in 3 shared/plain combinations, memmove, memmove_naive, compute_batch_offsets): on 24-byte "
+                "buffers with ALL contents and ALL counts the result equals the byte model, nothing outside the destination changes and every "
+                "access is in bounds and aligned for every object alignment (CBMC pointer checks). Buffer/view HISTORIES are NOT decided.",
+        "note": "Trusted: Kani/CBMC incl. its memory model, the integer reference model, the to_number stub, partial initialisation of TypedArray. "
+                "Outside: resize/detach/transfer histories as such, TypedArray builtins, Atomics, BigInt/float element types.",
+        "technique": "bounded model checking of the compiled Rust (Kani/CBMC, SAT): full double/int domains vs integer spec model; symbolic view state vs bounds model; symbolic buffers vs byte model with pointer checks",
+        "design_ref": "DESIGN.md §4 C15, §9",
     },
 }
 
